@@ -31,11 +31,20 @@ Definition pointer (x : list entry * (N * N)) : entry :=
 
 Record directory := mkDir { d_root : list entry; d_leaves : list (list entry * (N * N)); d_leaves_bytes : bytes }.
 
-Definition ser_size (l : list entry) : N := N.of_nat (length (serialize l)).
+(* the bytes a directory is stored as: its serialisation passed through the internal compression
+   `enc` (the writer uses gzip; `enc` = identity is TileCompression::Uncompressed) *)
+Section Enc.
+  Variable enc : bytes -> bytes.
+  Definition stored_bytes (l : list entry) : bytes := enc (serialize l).
+  Definition stored_size (l : list entry) : N := N.of_nat (length (stored_bytes l)).
 
-Definition build_roots_leaves (k : nat) (es : list entry) : directory :=
-  let placed := place_leaves ser_size 0 (cut_leaves (length es) k es) in
-  mkDir (map pointer placed) placed (flat_map (fun x => serialize (fst x)) placed).
+  Definition build_roots_leaves_enc (k : nat) (es : list entry) : directory :=
+    let placed := place_leaves stored_size 0 (cut_leaves (length es) k es) in
+    mkDir (map pointer placed) placed (flat_map (fun x => stored_bytes (fst x)) placed).
+End Enc.
+
+Definition ser_size (l : list entry) : N := stored_size (fun b => b) l.
+Definition build_roots_leaves (k : nat) (es : list entry) : directory := build_roots_leaves_enc (fun b => b) k es.
 
 (* as_directory: case 1 when there are fewer than `limit` (16384) entries and the serialised root
    fits `target`; otherwise the first leaf size of `ks` whose root fits (the code multiplies an f32
@@ -55,3 +64,6 @@ Definition as_directory (limit target : N) (ks : list nat) (es : list entry) : o
 (* the reader's view of the leaves section: bytes [o, o+n) parsed as a directory *)
 Definition sub (b : bytes) (o n : N) : bytes := firstn (N.to_nat n) (skipn (N.to_nat o) b).
 Definition read_leaf (av : N) (b : bytes) (o n : N) : outcome (list entry) := deserialize av (sub b o n).
+(* ... with the internal compression undone first (`dec`), as PMTilesReader does for every leaf *)
+Definition read_leaf_dec (dec : bytes -> option bytes) (av : N) (b : bytes) (o n : N) : outcome (list entry) :=
+  match dec (sub b o n) with Some raw => deserialize av raw | None => Err end.
